@@ -6,7 +6,7 @@ import itertools
 from common import Script
 
 NAMES = ["a", "ab", "b", "a*", "?"]
-PATTERNS = ["a*", "*", "?", "a?", "b", "ab"]
+PATTERNS = ["a*", "*", "?", "a?", "b", "ab", "{a,b}", "{ab,b}*", "a{b,}"]
 BAD_PATTERNS = ["[", "a[", "[a"]
 ALL_NAMES = sorted(set(NAMES + PATTERNS))
 
